@@ -42,9 +42,8 @@ CHECK = {'level': 'exploration',
                  'passwords that differ as strings but expand to the same 72-byte bcrypt key (p vs p+NUL+p, or equal first 72 bytes) are judged as '
                  'different passwords, under their own signature',
                  'JWT / OIDC authentication and guest access are not part of this check',
-                 'sched scenario 4 variant setter-at-old-cost (the racing password change is written by an Authenticator still configured with the old '
-                 'bcrypt cost, i.e. nodes with different bcrypt_cost settings) restores the old password on the unchanged tree; it is counted '
-                 '(mixed_cost_old_password_restored_not_deciding) and decided only with VERIF_C12_MIXED_COST=decide',
+                 'sched scenario 4 runs two variants: the racing password change is written at the configured bcrypt cost, or by an Authenticator still '
+                 'configured with the old cost (nodes with different bcrypt_cost settings); both are decided',
                  'self-test aid: with VERIF_C12_KNOWN=notes in the environment the signatures observed on the unchanged tree (disabled user keeps '
                  'session authentication, logout undone by a concurrent refresh, rosmar delete-of-deleted-key, bcrypt key equivalence) are counted as '
                  'notes instead of violations so that a mutant run is decided by what the mutant adds; the default reports everything']}
